@@ -99,7 +99,9 @@ impl OutcomeTestGenerator for Outcome {
                         output.push_str(" (no-eol)\n")
                     }
                     generated.push_str(&output);
-                    generated.push_str(&formatln!("[{}]", *actual));
+                    if *actual != 0 {
+                        generated.push_str(&formatln!("[{}]", *actual));
+                    }
                     Ok(generated)
                 }
                 TestCaseError::InternalError(err) => {
